@@ -27,6 +27,7 @@ Next == \/ \E op \in WOps : Do("w", op) \/ Interrupted("w", op)
 
 Spec == Init /\ [][Next]_absvars
 
+
 Bound == /\ RLen(truth["k1"]) <= MaxLen
          /\ \A c \in DOMAIN cores : cores[c].subs <= MaxSubs
 
